@@ -260,9 +260,15 @@ func (b *backend) update(ctx context.Context, oldRevision uint64, key []byte, va
 	oldRevisionBytes := uint64ToBytes(oldRevision)
 	newRevisionBytes := uint64ToBytes(newRevision)
 
+	// an Event record expires as a whole after its newest change: renew the ttl on both keys
+	ttl := int64(0)
+	if bytes.HasPrefix(key, getEventsPrefix(b.config.Prefix)) {
+		ttl = eventsTTL
+	}
+
 	batch := b.kv.BeginBatchWrite()
-	batch.CAS(revisionKey, newRevisionBytes, oldRevisionBytes, 0)
-	batch.Put(objectKey, value, 0)
+	batch.CAS(revisionKey, newRevisionBytes, oldRevisionBytes, ttl)
+	batch.Put(objectKey, value, ttl)
 	return newRevision, batch.Commit(ctx)
 }
 
